@@ -20,7 +20,96 @@ def to_smt2(axioms, hyps, goal) -> str:
     return s.to_smt2()
 
 
+def fresh_symbols(t, cache=None) -> frozenset:
+    """names of the *fresh* symbols (path-local constants and Skolem functions: they carry a '!')"""
+    out = set()
+    seen = set()
+    stack = [t]
+    while stack:
+        x = stack.pop()
+        i = x.get_id()
+        if i in seen:
+            continue
+        seen.add(i)
+        if z3.is_quantifier(x):
+            stack.append(x.body())
+        elif z3.is_app(x):
+            d = x.decl()
+            if d.kind() == z3.Z3_OP_UNINTERPRETED:
+                n = d.name()
+                if "!" in n:
+                    out.add(n)
+            stack.extend(x.children())
+    return frozenset(out)
+
+
+def relevance_slice(hyps, goal):
+    """cone of influence: hypotheses connected to the goal through shared fresh symbols (dropping
+    hypotheses is sound for proving; a `sat` on the slice is re-examined on the full set)"""
+    syms = [fresh_symbols(h) for h in hyps]
+    rel = set(fresh_symbols(goal))
+    keep = [len(s) == 0 for s in syms]
+    changed = True
+    while changed:
+        changed = False
+        for i, s in enumerate(syms):
+            if not keep[i] and s & rel:
+                keep[i] = True
+                rel |= s
+                changed = True
+    return [h for h, k in zip(hyps, keep) if k]
+
+
+def _z3_check(smt2, timeout_ms):
+    status, detail = "unknown", ""
+    try:
+        s = z3.Solver()
+        s.set("timeout", timeout_ms)
+        s.from_string(smt2)
+        r = s.check()
+        status = str(r)
+        if r == z3.sat:
+            try:
+                detail = str(s.model())[:4000]
+            except Exception as e:  # pragma: no cover
+                detail = f"<model unavailable: {e}>"
+        elif r == z3.unknown:
+            detail = s.reason_unknown()
+    except Exception as e:
+        status, detail = "error", f"{type(e).__name__}: {e}"
+    return status, detail
+
+
+def _solve_sliced(args):
+    """(name, sliced_smt2, full_smt2, timeout_ms, use_cvc5): slice first (sound for unsat), then full."""
+    name, sliced, full, timeout_ms, use_cvc5 = args
+    t0 = time.time()
+    st1, d1 = _z3_check(sliced, timeout_ms)
+    if st1 == "unsat":
+        return name, "unsat", "z3/slice", round(time.time() - t0, 3), ""
+    if st1 == "unknown" and use_cvc5:
+        st_c, d_c = _cvc5(sliced, max(2, timeout_ms // 1000))
+        if st_c == "unsat":
+            return name, "unsat", "cvc5/slice", round(time.time() - t0, 3), ""
+    if full is None:
+        return name, st1, "z3/slice", round(time.time() - t0, 3), d1
+    st2, d2 = _z3_check(full, timeout_ms)
+    if st2 in ("unsat", "sat"):
+        return name, st2, "z3", round(time.time() - t0, 3), d2
+    if use_cvc5:
+        st_c, d_c = _cvc5(full, max(2, timeout_ms // 1000))
+        if st_c in ("sat", "unsat"):
+            return name, st_c, "cvc5", round(time.time() - t0, 3), d_c
+    if st1 == "sat":
+        # refuted on the cone of influence of the goal, full query undecided: reported as a failed
+        # obligation (the counter-model is replayed natively before anything is claimed about the code)
+        return name, "sat", "z3/slice-only", round(time.time() - t0, 3), d1
+    return name, "unknown", "z3", round(time.time() - t0, 3), d2
+
+
 def _solve_one(args):
+    if len(args) == 5:
+        return _solve_sliced(args)
     name, smt2, timeout_ms, use_cvc5 = args
     t0 = time.time()
     status, backend, detail = "unknown", "z3", ""
@@ -74,7 +163,12 @@ def _cvc5(smt2: str, tlimit_s: int):
 def discharge(jobs, timeout_ms=10000, procs=None, use_cvc5=True):
     """jobs: list of (name, smt2).  -> dict name -> (status, backend, secs, detail)"""
     procs = procs or min(16, os.cpu_count() or 4)
-    args = [(j[0], j[1], (j[2] if len(j) > 2 and j[2] else timeout_ms), use_cvc5 and not (len(j) > 2 and j[2])) for j in jobs]
+    args = []
+    for j in jobs:
+        if isinstance(j, dict):
+            args.append((j["name"], j["sliced"], j.get("full"), j.get("timeout") or timeout_ms, use_cvc5 and not j.get("timeout")))
+        else:
+            args.append((j[0], j[1], (j[2] if len(j) > 2 and j[2] else timeout_ms), use_cvc5 and not (len(j) > 2 and j[2])))
     out = {}
     if not args:
         return out
